@@ -86,4 +86,17 @@ theorem page_start_is_16_aligned (cnt seg idx bs psz : Nat) (hseg0 : seg % 33554
     (Gen._mi_segment_page_start_from_slice cnt seg (seg + 288 + idx * 96) bs psz).1 % 16 = 0 :=
   PageStartL.page_start_16_aligned cnt seg idx bs psz hseg0 hseg hidx
 
+/-- **general form**: for every block size that is a multiple of 16 and at most 64 KiB (all size classes from 16 bytes up to the largest
+    small-page class), in a page with room for the start adjustment, every block is aligned to every `a` that divides the block size —
+    the exact claim behind `mi_malloc_is_naturally_aligned` (`bsize ≤ 64 KiB ∧ bsize & (alignment − 1) = 0`) -/
+theorem page_blocks_aligned_to_divisors_of_size_class (cnt seg idx bs psz a : Nat) (hseg0 : seg % 33554432 = 0) (hseg : seg + 33554432 < 2^64)
+    (hidx : idx < 512) (h16 : bs % 16 = 0) (hb0 : 0 < bs) (hb1 : bs ≤ 65536) (hroom : 2 * bs ≤ (cnt * 65536) % 18446744073709551616)
+    (ha : a ∣ bs) (i : Nat) :
+    ((Gen._mi_segment_page_start_from_slice cnt seg (seg + 288 + idx * 96) bs psz).1 + i * bs) % a = 0 := by
+  have h := PageStartL.page_start_block_aligned cnt seg idx bs psz hseg0 hseg hidx h16 hb0 hb1 hroom
+  have h2 : ((Gen._mi_segment_page_start_from_slice cnt seg (seg + 288 + idx * 96) bs psz).1 + i * bs) % bs = 0 := by
+    rw [Nat.add_mul_mod_self_right]; exact h
+  have := Nat.mod_mod_of_dvd ((Gen._mi_segment_page_start_from_slice cnt seg (seg + 288 + idx * 96) bs psz).1 + i * bs) ha
+  rw [h2] at this; rw [← this]; exact Nat.zero_mod a
+
 end C03
